@@ -255,10 +255,20 @@ P("C19", explanation="E3 r_list.c + E1 k_test.c", bounds={"quick": "", "thorough
 P("C05", explanation="E1 kernel k_buf.c", bounds={"quick": "", "thorough": ""}, outside="")
 
 
+def big_jobs():
+    # large variables: data_size 255..258 (the only kernel above data_size 8), decoded length data_size-1..data_size+1: counters that are
+    # too narrow for a big variable wrap inside this bound
+    w = ["end-of-scenario", "accepted-at-exact-capacity-above-255", "rejected-one-too-long", "accepted-255"]
+    return [Job("k_big.hex.ds258", "k_big.c", {"VT": 3, "DSB": 258}, unwind=2 * 259 + 8, timeout=1800, samples=3000, solver="cadical",
+                required_witness=w)]
+
+
 def c05(tier):
     ln = 16 if tier == "quick" else 20
     jobs = [Job("k_buf.hex.len%d" % ln, "k_buf.c", {"VT": 3, "LEN": ln}, unwind=ln + 6, timeout=1800, samples=100000),
             Job("k_buf.str.len%d" % ln, "k_buf.c", {"VT": 4, "LEN": ln}, unwind=ln + 6, timeout=1800, samples=100000)]
+    if tier != "quick":
+        jobs += big_jobs()   # (C05 quantifies over data_size 1..64; the large-variable kernel is C07's quick job and a thorough extra here)
     return with_prop("C05", jobs)
 
 
@@ -301,6 +311,7 @@ def c07(tier):
                     za = 0 if a >= 3 else 1
                     zb = 0 if b >= 3 else 1
                     jobs.append(rt_job([a, b], [za, zb], 40, solver="kissat", timeout=3000))
+    jobs += big_jobs()   # transport leg for large byte buffers (hex text -> variable), data_size 255..258
     return with_prop("C07", jobs)
 
 
